@@ -2,6 +2,7 @@ import GomlVerif.Lemmas.C18Json
 import GomlVerif.Lemmas.C18Render
 import GomlVerif.Lemmas.C18Scope
 import GomlVerif.Lemmas.C18Escape
+import GomlVerif.Lemmas.C18Decode
 /-!
 C18 — derived `ToString` / `ToJson` are total and faithful.
 
@@ -26,6 +27,16 @@ theorem toJson_wellformed_partial (Δ : Defs) (t : FTy) (v : Val) (hΔ : defsOk 
     (hty : hasTy Δ t v = true) (hfl : floatsOk v = true) :
     jsonRead (toJson Δ v) = some (encode Δ v) :=
   jsonRead_toJson hΔ hty hfl
+
+/-- **… whose structure and leaves decode back to the value**: reading `to_json`'s text and
+    interpreting the structure at the value's type (`decode`: members in field order, the variant
+    found by its `tag`, integers by their decimal digits, strings as they are) gives the value back.
+    `_partial` for the same reason as above (floats are compared as their rendering). -/
+theorem toJson_roundtrip_partial (Δ : Defs) (t : FTy) (v : Val) (hΔ : defsOk Δ = true)
+    (hdist : variantsDistinct Δ = true) (hty : hasTy Δ t v = true) (hfl : floatsOk v = true) :
+    (jsonRead (toJson Δ v)).bind (decode Δ t) = some v := by
+  rw [jsonRead_toJson hΔ hty hfl]
+  exact decode_encode hdist v t hty
 
 /-- strings are correctly escaped — all of them: `json_escape_string` followed by a JSON reader is
     the identity -/
@@ -96,7 +107,7 @@ def exV : Val :=
   .struct "Person" [.str ['a', '"', '\\', '\n', Char.ofNat 7, Char.ofNat 127, 'é', Char.ofNat 0x1F600],
     .bool true, .enum "List" 1 [.int (-3), .enum "List" 0 []], .unit]
 
-example : defsOk exΔ = true ∧ hasTy exΔ (.named "Person") exV = true ∧ floatsOk exV = true := by decide
+example : defsOk exΔ = true ∧ variantsDistinct exΔ = true ∧ hasTy exΔ (.named "Person") exV = true ∧ floatsOk exV = true := by decide
 
 example : toJson exΔ exV =
     "{\"name\":\"a\\\"\\\\\\u000a\\u0007\u007fé😀\",\"tag\":true,\"self\":{\"tag\":\"Cons\",\"fields\":[-3,{\"tag\":\"Nil\"}]},\"u\":null}".toList := by
